@@ -175,12 +175,13 @@ def c17(ctx):
                    '(kernel contracts re-check the counter initialisation and the final masked/revert store).'),
       not_decided='the swap arithmetic itself and the permutation order (F4/B1 rules are added separately)')
 def c13(ctx):
-    from . import masks as M
+    from . import masks as M, families as B
     out = []
     for cfg in _configs(ctx, extra=[dict(frontend.host_config(), sse2=0)]):
         prog = _prog(ctx, cfg)
         lab = _label(cfg)
         out.append((lab, M.rule_C1(ctx, prog, lab, only=ROWOPS, rule='C1-rowops')))
+        out.append((lab, B.rule_B1(ctx, prog, lab, only_funcs={'mzd_write_col_to_rows_blockd', 'mzd_col_swap_in_rows'})))
     return out
 
 
@@ -221,4 +222,136 @@ def c10(ctx):
         out.append((lab, M.rule_C1(ctx, prog, lab)))
         out.append((lab, M.rule_C4(ctx, prog, lab)))
         out.append((lab, CR.rule_A2(ctx, prog, lab)))
+    return out
+
+
+# ------------------------------------------------------------------ family-based properties
+def _names(prefix, rng):
+    return set('%s%d' % (prefix, i) for i in rng)
+
+
+MUL_FUNCS = {'_mzd_combine', 'mzd_make_table', '_mzd_mul_m4rm', 'mzd_combine_even', 'mzd_combine_even_in_place', '_mzd_mul_naive',
+             '_mzd_mul_va'} | _names('_mzd_combine_', range(2, 9))
+ECH_FUNCS = {'mzd_process_rows', '_mzd_echelonize_m4ri', '_mzd_top_echelonize_m4ri', 'mzd_make_table'} | _names('mzd_process_rows', range(2, 7))
+PLE_FUNCS = {'_mzd_ple_russian', '_kk_setup', 'mzd_make_table_ple', '_mzd_ple_a11_1', '_mzd_ple_submatrix', '_mzd_ple', 'mzd_ple', 'mzd_pluq', '_mzd_pluq',
+             '_mzd_ple_a10', '_mzd_ple_to_e', '_mzd_compress_l'} | _names('_mzd_process_rows_ple_', range(2, 9)) | _names('_mzd_ple_a11_', range(2, 9))
+TRSM_FUNCS = {'_mzd_trsm_pack', '_mzd_trsm_unpack', '_mzd_trsm_upper_left_russian', '_mzd_trsm_lower_left_russian',
+              '_mzd_trsm_upper_left_submatrix', '_mzd_trsm_lower_left_submatrix', 'mzd_make_table_trtri', 'mzd_trtri_upper_russian'}
+IO_FUNCS = {'mzd_from_png', 'mzd_to_png', 'mzd_from_jcf', 'mzd_from_str'}
+BIT_FUNCS = {'m4ri_spread_bits', 'm4ri_shrink_bits', 'm4ri_swap_bits'}
+
+
+@prop('C01', level='other',
+      explanation=('Structural clauses of multiplication: A1 (factors have no write effect on any route); B1/B2/B3 (Duff devices and N-table '
+                   'combine kernels: complete label sets, affine literals and callee suffixes, case K reads exactly tables 0..K-1; NTABLES '
+                   'dispatch calls the matching instantiation); F1 (all six front ends test the inner dimension and the shape of C before any '
+                   'work); F2 (allocated result shape = demanded shape); C6/C6b (clear flags by role); C2 (tables written only by builders).'),
+      not_decided='that the Bodrato sequence, the k-splitting and the parity kernel compute A*B (value level); the Strassen empty-quadrant abort needs arithmetic on mmm and is not found by these rules')
+def c01(ctx):
+    from . import families as B, const_rules as CR, contracts as CT, purity as P, masks as M
+    out = []
+    for cfg in _configs(ctx, extra=[dict(frontend.host_config(), sse2=0)]):
+        prog = _prog(ctx, cfg)
+        lab = _label(cfg)
+        out.append((lab, B.rule_B1(ctx, prog, lab, only_funcs=MUL_FUNCS)))
+        out.append((lab, B.rule_B2(ctx, prog, lab)))
+        out.append((lab, B.rule_B3(ctx, prog, lab)))
+        out.append((lab, CR.rule_A1(ctx, prog, lab)))
+        out.append((lab, CT.rule_F1(ctx, prog, lab)))
+        out.append((lab, CT.rule_F2(ctx, prog, lab)))
+        out.append((lab, P.rule_C6(ctx, prog, lab)))
+        out.append((lab, M.rule_C2_callers(ctx, prog, lab)))
+    return out
+
+
+@prop('C02', level='other',
+      explanation=('Structural clauses of echelonisation: B1/B2 on the six mzd_process_rows Duff devices and the 2..6-table row processors '
+                   '(complete label sets, affine members); D1 (the echeloniser\'s tables are phase-matched to A); C2 (tables written only by '
+                   'mzd_make_table); E1 on the echelonisation functions.'),
+      not_decided='rank, RREF uniqueness, pivot search, density switch (value level); agreement of the k-split between builder and consumer is not yet decided')
+def c02(ctx):
+    from . import families as B, align as AL, masks as M, resources as R
+    out = []
+    for cfg in _configs(ctx, extra=[dict(frontend.host_config(), sse2=0)]):
+        prog = _prog(ctx, cfg)
+        lab = _label(cfg)
+        out.append((lab, B.rule_B1(ctx, prog, lab, only_funcs=ECH_FUNCS)))
+        out.append((lab, B.rule_B2(ctx, prog, lab, only_funcs=ECH_FUNCS | {'_mzd_combine'}, rule='B2-ech') if False else B.rule_B2(ctx, prog, lab)))
+        out.append((lab, AL.rule_D1(ctx, prog, lab, only_funcs=ECH_FUNCS)))
+        out.append((lab, M.rule_C2_callers(ctx, prog, lab)))
+        out.append((lab, R.rule_E1(ctx, prog, lab, only_funcs=ECH_FUNCS | {'mzd_echelonize_m4ri', 'mzd_echelonize_pluq', 'mzd_echelonize', 'mzd_top_echelonize_m4ri'}, rule='E1-ech')))
+    return out
+
+
+@prop('C03', level='other',
+      explanation=('Structural clauses of PLE/PLUQ: B1 over both pseudo-templates (all seven instantiations of _mzd_process_rows_ple_N and '
+                   '_mzd_ple_a11_N: affine table indices, prefix-sum chains sh[j] = k[0]+..+k[j-1]), the ntables dispatch and _kk_setup; '
+                   'F1 (P, Q lengths validated before work); E1 on the PLE functions (ple_table_t, windows, permutation windows and their kinds).'),
+      not_decided='P*L*U*Q = A, rank profile, zero storage outside L and U (value level)')
+def c03(ctx):
+    from . import families as B, contracts as CT, resources as R
+    out = []
+    for cfg in _configs(ctx, extra=[dict(frontend.host_config(), sse2=0)]):
+        prog = _prog(ctx, cfg)
+        lab = _label(cfg)
+        out.append((lab, B.rule_B1(ctx, prog, lab, only_funcs=PLE_FUNCS)))
+        out.append((lab, CT.rule_F1(ctx, prog, lab)))
+        out.append((lab, R.rule_E1(ctx, prog, lab, only_funcs=PLE_FUNCS | {'ple_table_init', 'ple_table_free'}, rule='E1-ple')))
+    return out
+
+
+@prop('C04', level='other',
+      explanation=('Structural clauses of TRSM: F1 on the four wrappers (T square, T vs B dimension, before any work); A1 (T unchanged); '
+                   'B1 on the 2x64-statement pack/unpack runs and the NTABLES switches of both Four-Russians routines; D1 (their tables are '
+                   'phase-matched to B); C1 on the word base cases.'),
+      not_decided='T*X = B; that only the named triangle is read (index inequalities)')
+def c04(ctx):
+    from . import families as B, contracts as CT, const_rules as CR, align as AL, masks as M
+    out = []
+    for cfg in _configs(ctx, extra=[dict(frontend.host_config(), sse2=0)]):
+        prog = _prog(ctx, cfg)
+        lab = _label(cfg)
+        out.append((lab, CT.rule_F1(ctx, prog, lab)))
+        out.append((lab, CR.rule_A1(ctx, prog, lab)))
+        out.append((lab, B.rule_B1(ctx, prog, lab, only_funcs=TRSM_FUNCS)))
+        out.append((lab, AL.rule_D1(ctx, prog, lab, only_funcs={'_mzd_trsm_upper_left_russian', '_mzd_trsm_lower_left_russian'})))
+        out.append((lab, M.rule_C1(ctx, prog, lab, only=TRSM_FUNCS | {'_mzd_trsm_lower_left', '_mzd_trsm_upper_left', '_mzd_trsm_upper_right_base', '_mzd_trsm_lower_right_base'}, rule='C1-trsm')))
+    return out
+
+
+@prop('C18', level='other',
+      explanation=('Structural clauses of the readers: I2 (bit depth, channels, colour type, interlacing of a PNG are each tested with a rejecting '
+                   'edge that dominates png_read_row); I1 (row and column indices read from a JCF file are bounded below and above by a dying guard '
+                   'that dominates mzd_write_bit); B1 (byte packing/unpacking families of writer and reader); E1 on all exits of the three '
+                   'readers/writer (nothing leaks, nothing is freed twice); E3-3p (fopen/png_create_* results tested before use).'),
+      not_decided='round-trip equality, libpng behaviour on corrupted streams (it aborts through png_error: allowed by the property)')
+def c18(ctx):
+    from . import io_rules as I, families as B, resources as R, nullcheck as NC
+    out = []
+    for cfg in _configs(ctx):
+        prog = _prog(ctx, cfg)
+        lab = _label(cfg)
+        out.append((lab, I.rule_I1(ctx, prog, lab)))
+        out.append((lab, I.rule_I2(ctx, prog, lab)))
+        out.append((lab, B.rule_B1(ctx, prog, lab, only_funcs=IO_FUNCS)))
+        out.append((lab, R.rule_E1(ctx, prog, lab, only_funcs=IO_FUNCS, rule='E1-io')))
+        out.append((lab, NC.rule_E3_third_party(ctx, prog, lab)))
+    return out
+
+
+@prop('C19', level='other',
+      explanation=('Finite, exhaustive clauses: C8 - 2209 C++17 static_assert witnesses (the macro text is taken from the repository header at '
+                   'compile time) for LEFT/RIGHT/MIDDLE bit masks over every length and offset, with a liveness control that must fail to '
+                   'compile; B7 - each butterfly stage of m4ri_swap_bits swaps adjacent s-bit groups with the matching period mask; B1 - the '
+                   '16-member spread/shrink families are affine in their index.'),
+      not_decided='m4ri_gray_code, m4ri_build_code, m4ri_parity64, m4ri_lesser_LSB: data-dependent code whose correctness is a statement about evaluated values')
+def c19(ctx):
+    from . import witness as W, families as B
+    out = []
+    for cfg in _configs(ctx):
+        prog = _prog(ctx, cfg)
+        lab = _label(cfg)
+        out.append((lab, W.rule_C8(ctx, prog, lab)))
+        out.append((lab, B.rule_B7(ctx, prog, lab)))
+        out.append((lab, B.rule_B1(ctx, prog, lab, only_funcs=BIT_FUNCS)))
     return out
